@@ -25,7 +25,7 @@ CHECKS = {
          'Inputs signed exactly as the examples do (library SignatureHash + key.sign) must verify; every catalogue edit is applied to each signed '
          'transaction and VerifyScript must fail iff the reference consensus digest changes; foreign-key signatures must fail. Six templates x '
          'six standard hash types (+ undefined bytes) x positions; class histogram must show must-fail and must-pass edits for every hash type.', TRUST),
- 'C06': ('exploration', 'differential testing vs an independent reference Script interpreter: exhaustive enumeration of short programs + Hypothesis grammar/signature/mutation generators + parameterised limit probes',
+ 'C06': ('exploration', 'differential testing vs an independent reference Script interpreter: exhaustive enumeration of short programs + Hypothesis grammar/signature/mutation generators + parameterised limit probes + coverage-guided (Atheris) differential fuzzing',
          'Library EvalScript/VerifyScript compared with a from-scratch interpreter (validated on 622 Core vectors) on every script of <=2 (3) tokens, '
          'grammar programs, reference-signed signature programs (all templates, CODESEPARATOR, FindAndDelete, P2SH), limit probes at L-3..L+3 and '
          'all 256 opcodes in six positions; accept/reject and exact final stacks.', TRUST),
@@ -33,7 +33,7 @@ CHECKS = {
          'Arbitrary bytes decoded into (flags, 64 tx variants, index, scriptSig, scriptPubKey) in five modes are run through VerifyScript/EvalScript; '
          'only ValidationError may escape, inputs and cached ids must be unchanged and captured error state must respect the limits; eight (16) '
          'campaigns from empty and seeded corpora; every truncation point of generated structured scripts.', TRUST),
- 'C08': ('exploration', 'exhaustive enumeration (all byte strings <=2/3 bytes, all opcode pairs, all integers +-70,000) + Hypothesis token/raw-script generators vs reference builder, tokeniser, number codec, predicates and sigop counts',
+ 'C08': ('exploration', 'exhaustive enumeration (all byte strings <=2/3 bytes, all opcode pairs, all integers +-70,000) + Hypothesis token/raw-script generators + coverage-guided (Atheris) fuzzing of raw scripts vs reference builder, tokeniser, number codec, predicates and sigop counts',
          'Builder bytes, cooked iteration and rebuild equal the reference rules; raw iteration partitions every byte string like the reference '
          'tokeniser and reports malformed pushes as CScriptInvalidError; nine predicates and both sigop counts equal definitions transcribed from Core '
          'on every short byte string and on template-shaped / near-miss / truncated scripts.', TRUST),
@@ -41,11 +41,11 @@ CHECKS = {
          'A pool of mutable transactions, immutable snapshots, mutable copies, standalone part copies and blocks is driven by 26 rules; after every '
          'step every object must serialise to the reference encoding of its own model with matching txid/wtxid/hash(), so aliasing and stale caches '
          'surface on a later step. All 19,683 histories of length 3 over a 27-op catalogue; setattr/delattr on every slot of nine immutable classes.', TRUST),
- 'C10': ('fault_enumeration', 'exhaustive enumeration of short byte strings / alphabet strings / all 256 versions x 41 lengths + enumeration of every single-character substitution, deletion and insertion fault, judged by a reference big-integer codec and checksum rule',
+ 'C10': ('fault_enumeration', 'exhaustive enumeration of short byte strings / alphabet strings / all 256 versions x 41 lengths + enumeration of every single-character substitution, deletion and insertion fault, judged by a reference big-integer codec and checksum rule; coverage-guided (Atheris) fuzzing of strings',
          'Codec equality and mutual inversion on all byte strings <=2 and all alphabet strings <=3; for Base58Check every (version, length) pair '
          'round-trips and each injected fault (all 57L+L+58(L+1) single-character faults for selected strings, sampled for the rest, plus byte-level '
          'fragments) must be accepted, raise Base58ChecksumError or another Base58Error exactly as the reference rule says.', TRUST),
- 'C11': ('fault_enumeration', 'enumeration of every single substitution / truncation / case-flip / insertion of generated addresses + drawn (thorough: exhaustive) double and triple/quadruple substitutions; differential vs an independent BIP173 decoder with GF(32) polynomial checksum, plus the absolute <=4-error rejection guarantee',
+ 'C11': ('fault_enumeration', 'enumeration of every single substitution / truncation / case-flip / insertion of generated addresses + drawn (thorough: exhaustive) double and triple/quadruple substitutions; differential vs an independent BIP173 decoder with GF(32) polynomial checksum, plus the absolute <=4-error rejection guarantee; coverage-guided (Atheris) differential fuzzing of strings',
          'Encoder equals the reference string; decoder verdict and payload equal an independent BIP173 implementation on every mutated string, on '
          'checksum-valid strings over arbitrary 5-bit payloads (padding / length / version rules) and under related-but-different prefixes; every '
          '<=4-substitution corruption and every mixed-case rendering must be rejected.', TRUST),
